@@ -855,6 +855,30 @@ def compare(exp, hist):
     return None
 
 
+CORPUS_PROBE = """fn __p_f(n) { if n == 0 { return 0; } return 1 + __p_f(n - 1); }
+var __p_log = [];
+try { __p_log.push("t"); } finally { __p_log.push("f"); }
+try { throw "x"; } catch __p_e { __p_log.push(__p_e); } finally { __p_log.push("f2"); }
+fn __p_g() { try { return "r"; } finally { __p_log.push("f3"); } }
+__p_log.push(__p_g());
+var __p_fib = Fiber.new(|x| { var y = Fiber.yield(x + 1); return y * 2; });
+__p_log.push(__p_fib.call(1)); __p_log.push(__p_fib.call(5)); __p_log.push(__p_fib.has_finished());
+try { __p_fib.call(1); } catch __p_e3 { __p_log.push(type(__p_e3) == RuntimeError); }
+try { Fiber.yield(1); } catch __p_e4 { __p_log.push(type(__p_e4) == RuntimeError); }
+__p_log.push(__p_f(40));
+__p_log.push([1, 2, 3].iter().map(|x| { return x * 2; }).filter(|x| { return x > 2; }).collect());
+try { nil.foo; } catch __p_e2 { __p_log.push(type(__p_e2) == AttributeError); }
+#[constructor(new)] class __P_C { fn m(self) { return 7; } }
+#[derive(__P_C), constructor(new)] class __P_D { fn m(self) { return super.m() + 1; } }
+__p_log.push(__P_D.new().m());
+var __p_t = 0; for __p_i in 1..5 { __p_t = __p_t + __p_i; } __p_log.push(__p_t);
+var __p_m = {"k": (1, 2), 3: "v"}; __p_log.push(__p_m.get("k")); __p_log.push(__p_m.len());
+__p_log.push("${1 + 1}/${"a" + "b"}");
+print(__p_log);
+print((type(print) == type(type), type(Error), type(StopIter), type(1), type("s"), type([]), type(nil)));
+"""
+
+
 class C15:
     ID = "C15"
     LEVEL = "fault_enumeration"
@@ -865,6 +889,9 @@ class C15:
             "dynamic fault point of the crash-free run fails once) when there are <= MAX_ENUM of them, and sampled plans with 2-3 crash "
             "points; each plan runs in checked and release builds and is compared snippet-by-snippet with the session model; "
             "sessions containing a reset are additionally replayed from the last reset on a fresh interpreter (metamorphic). "
+            "Plus model-free sessions over the repository's own scripts (about a third end with a compile error or an uncaught error): [A, reset, B] - B must behave "
+            "exactly as on a new interpreter - and [A, probe] - a probe that uses only names of its own (try/finally, fibers, recursion, iterator adaptors, classes, "
+            "maps, interpolation, error classes) must behave exactly as on a new interpreter; each script is A once in both forms, checked and release builds. "
             "distinct_nontrivial = distinct (session, plan) hashes with >= 1 failed snippet followed by >= 1 later snippet 1/64 of the plans also run on the optimised build collecting at every allocation under valgrind memcheck.")
     COMPONENTS = {"real": ["yarel compiler", "VM interpret/execute/runtime_error/reset_stack/reset on ONE Vm per session",
                            "module system (imports persist across snippets)", "fibers persisting across snippets"],
@@ -878,12 +905,27 @@ class C15:
         return ["checked", "release", "checked+hooks", "release+debug_stress_gc"]
 
     def plan(self, tier):
-        return 2500 if tier == "quick" else 120000
+        return self.n_corpus() + (2500 if tier == "quick" else 120000)
+
+    def n_corpus(self):
+        from . import c10
+        return 2 * len(c10.scripts()[0])
 
     def wall_cap(self, tier):
         return 240 if tier == "quick" else 3300
 
     def generate(self, seed, idx, tier):
+        nc = self.n_corpus()
+        if idx < nc:
+            # model-free sessions over the repository's own scripts (programs nobody wrote for this purpose; about a third of
+            # them end with a compile error or an uncaught error, in every way the test authors thought of):
+            #   reset   : [A, reset, B] - B must behave exactly as on a newly created interpreter
+            #   residue : [A, PROBE]    - a probe that uses only names of its own must behave exactly as on a new interpreter
+            ns = nc // 2
+            if idx < ns:
+                return {"case": "corpus", "kind": "reset", "a": idx, "b": Rng(derive(seed, "C15-corpus", idx)).below(ns)}
+            return {"case": "corpus", "kind": "residue", "a": idx - ns}
+        idx -= nc           # (generated sessions keep the seeds they had before the corpus cases were added)
         return {"case": "session", "sess_seed": derive(seed, "C15", idx), "tier": tier}
 
     def plans_for(self, ir, sseed, tier, stats):
@@ -916,8 +958,60 @@ class C15:
             plans.append(faults)
         return plans
 
+    def check_corpus(self, sc, ctx):
+        from . import c10
+        stats = Stats()
+        lst, mods = c10.scripts()
+        name_a, src_a = lst[sc["a"]]
+        src_a = sc.get("source_a", src_a)
+        if sc["kind"] == "reset":
+            name_b, src_b = lst[sc["b"]]
+            src_b = sc.get("source_b", src_b)
+            session = [{"kind": "snippet", "source": src_a}, {"kind": "reset"}, {"kind": "snippet", "source": src_b}]
+        else:
+            name_b, src_b = "probe", CORPUS_PROBE
+            session = [{"kind": "snippet", "source": src_a}, {"kind": "snippet", "source": src_b}]
+        fresh = [{"kind": "snippet", "source": src_b}]
+        stats.inc("corpus_sessions:" + sc["kind"])
+        res = {"stats": stats, "nontrivial": False, "key": stable_hash([sc["kind"], src_a, src_b]),
+               "scenario": dict(sc, source_a=src_a, source_b=src_b, names=[name_a, name_b])}
+
+        def view(p_):
+            return (c10.norm_events(p_["events"]), c10.norm_outcome(p_["outcome"]))
+        for config in ("checked", "release"):
+            hs = []
+            for progs in (fresh, session):
+                h = ctx.run(config, {"programs": progs, "tape": [], "faults": {}, "fs": mods, "config": {"display": True}})
+                stats.inc("executions")
+                po = process_outcome(h)
+                if po and progs is fresh:
+                    return res          # the second script stops the process on its own: not this property's business
+                if po:
+                    if po[0] in ("panic", "crash", "hang", "invalid-memory-access") and process_outcome(
+                            ctx.run(config, {"programs": session[:1], "tape": [], "faults": {}, "fs": mods, "config": {"display": True}})):
+                        return res      # ... and so does the first one
+                    res["violation"] = {"class": po[0], "config": config, "msg": "[%s; %s then %s] %s" % (config, name_a, name_b, po[1])}
+                    return res
+                hs.append(h)
+            first = hs[1]["programs"][0]["outcome"]
+            if not first.get("ok"):
+                stats.inc("corpus_first_script_failed:" + str(first.get("err")))
+                res["nontrivial"] = True
+            a, b = view(hs[0]["programs"][-1]), view(hs[1]["programs"][-1])
+            if a != b:
+                i = next((j for j in range(min(len(a[0]), len(b[0]))) if a[0][j] != b[0][j]), min(len(a[0]), len(b[0])))
+                what = ("outcome %s vs %s" % (json.dumps(a[1])[:200], json.dumps(b[1])[:200])) if a[0] == b[0] else (
+                    "event %d: %s vs %s" % (i, json.dumps(a[0][i] if i < len(a[0]) else None)[:200], json.dumps(b[0][i] if i < len(b[0]) else None)[:200]))
+                res["violation"] = {"class": "reset-differs-from-fresh" if sc["kind"] == "reset" else "residue-of-earlier-run", "config": config,
+                                    "msg": "[%s] %s behaves differently on a new interpreter and after %s%s: %s" % (
+                                        config, name_b, name_a, " + reset" if sc["kind"] == "reset" else "", what)}
+                return res
+        return res
+
     def check(self, sc, ctx):
         stats = Stats()
+        if sc.get("case") == "corpus":
+            return self.check_corpus(sc, ctx)
         if sc.get("case") == "session":
             ir = gen_session(sc["sess_seed"])
             stats.inc("sessions")
@@ -1045,7 +1139,24 @@ class C15:
                 return res
         return res
 
+    def shrink_corpus(self, sc):
+        for which in ("source_a", "source_b"):
+            lines = (sc.get(which) or "").split("\n")
+            n = len(lines)
+            chunk = max(1, n // 4)
+            while n > 1 and chunk >= 1:
+                for lo in range(0, n, chunk):
+                    cand = lines[:lo] + lines[lo + chunk:]
+                    if cand:
+                        yield dict(sc, **{which: "\n".join(cand)})
+                if chunk == 1:
+                    break
+                chunk //= 2
+
     def shrink(self, sc):
+        if sc.get("case") == "corpus":
+            yield from self.shrink_corpus(sc)
+            return
         import copy
         if "ir" not in sc:
             return
